@@ -442,13 +442,18 @@ fn k_share_try_from_y() {
 /// deterministic RNG: the d-th (0-based) Fp::random draw consumes three next_u64 calls and yields the
 /// element with limbs [101 + d, 0, 0] (Fp::random uses the masked raw limbs and accepts them since
 /// they are below p, so its rejection loop runs exactly once)
-struct SeqRng { calls: u64 }
+struct SeqRng { calls: u64, vals: Option<[u64; 5]> }
 impl rand::RngCore for SeqRng {
   fn next_u32(&mut self) -> u32 { self.next_u64() as u32 }
   fn next_u64(&mut self) -> u64 {
     let k = self.calls;
     self.calls += 1;
-    if k % 3 == 0 { 101 + k / 3 } else { 0 }
+    if k % 3 != 0 { return 0; }
+    match &self.vals {
+      // symbolic stream (including zero draws and repeated values): draw d has limbs [vals[d], 0, 0]
+      Some(v) => v[((k / 3) % 5) as usize],
+      None => 101 + k / 3,
+    }
   }
   fn fill_bytes(&mut self, dest: &mut [u8]) { let _ = dest; }
   fn try_fill_bytes(&mut self, dest: &mut [u8]) -> Result<(), rand::Error> { let _ = dest; Ok(()) }
@@ -458,14 +463,17 @@ impl rand::RngCore for SeqRng {
 /// k = 0..4 (concrete k: a symbolic Vec capacity blows up CBMC's memory model), symbolic s
 fn check_random_polynomial(k: u32) {
   let s = any_fp();
-  let mut rng = SeqRng { calls: 0 };
+  // the draws are SYMBOLIC (any u64 in the low limb, zero included): "every other coefficient is a
+  // separate draw" must hold for every stream, also one whose draws are zero or repeat
+  let vals: [u64; 5] = kani::any();
+  let mut rng = SeqRng { calls: 0, vals: Some(vals) };
   let p = random_polynomial(s, k, &mut rng);
   let n = if k >= 1 { k as usize } else { 1 };
   assert!(p.len() == n);
   assert!(eq3(&p[n - 1].0, &s.0));
   let mut j = 0;
   while j + 1 < n {
-    assert!(eq3(&p[j].0, &[101 + j as u64, 0, 0]));
+    assert!(eq3(&p[j].0, &[vals[j], 0, 0]));
     j += 1;
   }
   assert!(rng.calls == 3 * (n as u64 - 1));
@@ -486,7 +494,7 @@ fn k_random_polynomial() {
 fn check_dealer<const N: usize>(t: u32) {
   let buf: [u8; N] = kani::any();
   let secret = &buf[..];
-  let mut rng = SeqRng { calls: 0 };
+  let mut rng = SeqRng { calls: 0, vals: None };
   let sharks = crate::Sharks(t);
   let r = sharks.dealer_rng(secret, &mut rng);
   let cnt = N / 24;
